@@ -1049,6 +1049,8 @@ decl(struct scope *s, struct func *f)
 			asmname = NULL;
 		}
 		kind = sc & SCTYPEDEF ? DECLTYPE : t->kind == TYPEFUNC ? DECLFUNC : DECLOBJECT;
+		if (fs && kind != DECLFUNC)  /* 6.7.4p1 */
+			error(&tok.loc, "function specifier used in declaration of '%s', which is not a function", name);
 		prior = scopegetdecl(s, name, false);
 		if (prior && prior->kind != kind)
 			error(&tok.loc, "'%s' redeclared with different kind", name);
@@ -1104,6 +1106,8 @@ decl(struct scope *s, struct func *f)
 		case DECLFUNC:
 			if (align)
 				error(&tok.loc, "function '%s' declared with alignment specifier", name);
+			if (sc & SCTHREADLOCAL)  /* 6.7.1p4 */
+				error(&tok.loc, "function '%s' declared with 'thread_local'", name);
 			if (f && sc && sc != SCEXTERN)  /* 6.7.1p7 */
 				error(&tok.loc, "function '%s' with block scope may only have storage class 'extern'", name);
 			d = declcommon(s, kind, name, asmname, t, tq, sc, prior);
